@@ -5,6 +5,10 @@ import json, os, subprocess
 ROOT = os.path.dirname(os.path.dirname(os.path.abspath(__file__)))
 
 CLAIMED = {
+  "C09": dict(engine="E1 netsim1 + E2 p2psim", level="exploration", design="§4 C09",
+      technique="deterministic simulation of a corrupting transport / disk (bit flip, overwrite, splice, truncate, CBOR length corruption, garbage, nesting, foreign-protocol payload; in flight and at rest) in front of the real demuxers and decoders; crash-supervised child",
+      text="A conformant simulated peer streams generated legal messages of every protocol of both stacks, and every block / transaction / header artefact of test_data framed as protocol replies, through a seeded corrupting transport; the real demuxer, typed message decoders, AnyMessage::from_payload (whose output is fed into both behaviours), MultiEraBlock/Tx/Header/Output::decode and Address::from_bytes consume whatever arrives. Oracle: no panic in a decode entry point, no process abort, termination by EOF.",
+      note="Only decode entry points are judged; accessor panics on decoded values are counted, not reported. Address string parsers are out of scope. Samples the mutation space."),
   "C23": dict(engine="E1 netsim1", level="exploration", design="§4 C23, Appendix A",
       technique="deterministic simulation of a real agent vs. a simulated (spec-driven, partly Byzantine) peer over two real multiplexers on seeded pipes; per-state sweep of every message through send_message/recv_message plus high-level moves judged by spec automata",
       text="17 protocol x role agents of the original stack converse for up to 40 steps with a simulated peer; at each reached state every message variant is offered to send_message and delivered to recv_message (verdict must match the spec's agency/transition table, accepted sends must reach the peer unchanged, raw calls must not move the state), then a legal or illegal move is taken through the high-level API and the resulting state compared with the spec successor.",
@@ -59,7 +63,7 @@ CLAIMED = {
       note="Trusts blake2b/ed25519 of pallas-crypto (used on both sides) and the hand-written strict CBOR walker. Single actor; no scheduler/clock/transport."),
 }
 
-PENDING = {k: 'claimed in DESIGN.md; check under construction (not yet registered)' for k in 'C09 C12 C13 C39 C40'.split()}  # id -> reason while a claimed check is still being built
+PENDING = {k: 'claimed in DESIGN.md; check under construction (not yet registered)' for k in 'C12 C13 C39 C40'.split()}  # id -> reason while a claimed check is still being built
 
 NA = {
  "C01": "Flat encoder/decoder are in-memory functions of a value sequence; bit alignment depends on the values written, not on any schedule, stream, clock or fault.",
